@@ -584,3 +584,72 @@ V("DL1-mask-before-shift-overflows-int8", "C11", "DL1",
    "        bitmask = 1 << bit_offset\n        return np.right_shift(np.bitwise_and(data, bitmask), bit_offset)\n"))
 V("DL1-benign-operator-form", "C11", None,
   ("daqmx.py", "        return np.bitwise_and(np.right_shift(data, bit_offset), 1)\n", "        return (data >> bit_offset) & 1\n"))
+
+
+# ---------------------------------------------------------------- C06 (TC) - files cut short
+V("TC1-clamp-ge", "C06", "TC1",
+  ("reader.py", "if self._data_file_size is not None and next_segment_pos > self._data_file_size:", "if self._data_file_size is not None and next_segment_pos >= self._data_file_size:"))
+V("TC1-clamp-without-flag", "C06", "TC1",
+  ("reader.py", "                next_segment_pos = self._data_file_size\n                segment_incomplete = True\n", "                next_segment_pos = self._data_file_size\n"))
+V("TC1-flag-without-clamp", "C06", "TC1",
+  ("reader.py", "                next_segment_pos = self._data_file_size\n                segment_incomplete = True\n", "                segment_incomplete = True\n"))
+V("TC1-marker-not-incomplete", "C06", "TC1",
+  ("reader.py", "        segment_incomplete = next_segment_offset == 0xFFFFFFFFFFFFFFFF\n        if segment_incomplete:\n",
+   "        segment_incomplete = False\n        if next_segment_offset == 0xFFFFFFFFFFFFFFFF:\n"))
+V("TC1-benign-min", "C06", None,
+  ("reader.py", "            if self._data_file_size is not None and next_segment_pos > self._data_file_size:\n                # The raw data offset is incorrect, and there is less data than expected in this segment\n                next_segment_pos = self._data_file_size\n                segment_incomplete = True\n",
+   "            if self._data_file_size is not None:\n                segment_incomplete = next_segment_pos > self._data_file_size\n                next_segment_pos = min(next_segment_pos, self._data_file_size)\n"))
+V("TC1-benign-helper", "C06", None,
+  ("reader.py", "            if self._data_file_size is not None and next_segment_pos > self._data_file_size:\n", "            if self._beyond_end_of_file(next_segment_pos):\n"),
+  ("reader.py", "    def _verify_segment_start(self, segment):", "    def _beyond_end_of_file(self, position):\n        return self._data_file_size is not None and position > self._data_file_size\n\n    def _verify_segment_start(self, segment):"))
+V("TC2-short-lead-in-zero-only", "C06", "TC2",
+  ("reader.py", "        if len(lead_in_bytes) < 28:\n            raise EOFError\n", "        if len(lead_in_bytes) < 1:\n            raise EOFError\n"))
+V("TC2-short-lead-in-le", "C06", "TC2",
+  ("reader.py", "        if len(lead_in_bytes) < 28:\n            raise EOFError\n", "        if len(lead_in_bytes) <= 28:\n            raise EOFError\n"))
+V("TC2-benign-ne", "C06", None,
+  ("reader.py", "        if len(lead_in_bytes) < 28:\n            raise EOFError\n", "        if len(lead_in_bytes) != 28:\n            raise EOFError()\n"))
+V("TC2-torn-metadata-le", "C06", "TC2",
+  ("reader.py", "            if next_segment_pos < data_position:\n", "            if next_segment_pos <= data_position:\n"))
+V("TC2-torn-metadata-only-for-marker", "C06", "TC2",
+  ("reader.py", "        if segment_incomplete:\n            if next_segment_pos < data_position:\n", "        if segment_incomplete:\n            if next_segment_offset == 0xFFFFFFFFFFFFFFFF and next_segment_pos < data_position:\n"))
+V("TC2-benign-torn-swapped", "C06", None,
+  ("reader.py", "            if next_segment_pos < data_position:\n", "            if data_position > next_segment_pos:\n"))
+V("TC2-handler-reraises", "C06", "TC2",
+  ("reader.py", "                    except EOFError:\n                        # We've finished reading the file\n                        break\n",
+   "                    except EOFError:\n                        # We've finished reading the file\n                        if not self._segments:\n                            raise\n                        break\n"))
+# ---------------------------------------------------------------- C11 (TR2)
+V("TR2-one-length-for-all-buffers", "C11", "TR2",
+  ("daqmx.py", "            combined_data = read_interleaved_segment_bytes(\n                f, raw_data_width, number_values)\n",
+   "            combined_data = read_interleaved_segment_bytes(\n                f, raw_data_width, all_daqmx_metadata[0].chunk_size)\n") if False else
+  ("daqmx.py", "    return sum((num_values * width) for (num_values, width) in get_buffer_dimensions(ordered_objects))",
+   "    rows = max(o.number_values for o in ordered_objects)\n    return sum((rows * width) for (_n, width) in get_buffer_dimensions(ordered_objects))"))
+V("TR2-benign-named-pairs", "C11", None,
+  ("daqmx.py", "    return sum((num_values * width) for (num_values, width) in get_buffer_dimensions(ordered_objects))",
+   "    total = 0\n    for dims in get_buffer_dimensions(ordered_objects):\n        rows, row_bytes = dims\n        total += rows * row_bytes\n    return total"))
+_RD_OLD = "        if self._raw_data is None:\n            raw_data = self._read_channel_data(offset, length)\n"
+V("OW4-window-from-cache-start-only", "C05", "OW4",
+  ("tdms.py", _RD_OLD, "        if self._raw_data is None:\n            if scaled and length is not None and self._cached_chunk is not None:\n"
+   "                (chunk_start, chunk_end) = self._cached_chunk_bounds\n                if chunk_start <= offset < chunk_end and length >= 0:\n"
+   "                    start = offset - chunk_start\n                    return self._cached_chunk[start:start + length].copy()\n"
+   "            raw_data = self._read_channel_data(offset, length)\n"))
+V("OW4-benign-window-from-cache-both-ends", "C05", None,
+  ("tdms.py", _RD_OLD, "        if self._raw_data is None:\n            if scaled and length is not None and self._cached_chunk is not None:\n"
+   "                (chunk_start, chunk_end) = self._cached_chunk_bounds\n                if chunk_start <= offset and length >= 0 and offset + length <= chunk_end:\n"
+   "                    start = offset - chunk_start\n                    return self._cached_chunk[start:start + length].copy()\n"
+   "            raw_data = self._read_channel_data(offset, length)\n"))
+V("TR3-dimensions-from-one-channel", "C11", "TR3",
+  ("daqmx.py", "\n\ndef get_daqmx_chunk_size(ordered_objects):", "\n    def _read_channel_data_chunk(self, file, data_objects, chunk_index, channel_path):\n"
+   "        mine = [o for o in data_objects if o.path == channel_path]\n        chunk = self._read_data_chunk(file, mine, chunk_index)\n"
+   "        return chunk.channel_data.get(channel_path, RawChannelDataChunk.empty())\n\n\ndef get_daqmx_chunk_size(ordered_objects):"))
+V("TR3-benign-all-objects", "C11", None,
+  ("daqmx.py", "\n\ndef get_daqmx_chunk_size(ordered_objects):", "\n    def _read_channel_data_chunk(self, file, data_objects, chunk_index, channel_path):\n"
+   "        everything = list(data_objects)\n        chunk = self._read_data_chunk(file, everything, chunk_index)\n"
+   "        return chunk.channel_data.get(channel_path, RawChannelDataChunk.empty())\n\n\ndef get_daqmx_chunk_size(ordered_objects):"))
+V("RL2-except-exception-instead-of-finally", "C20", "RL2",
+  ("tdms.py", "        finally:\n            if not keep_open:\n                self._reader.close()\n",
+   "        except Exception:\n            self._reader.close()\n            raise\n        if not keep_open:\n            self._reader.close()\n"))
+V("RL2-benign-except-baseexception", "C20", None,
+  ("tdms.py", "        finally:\n            if not keep_open:\n                self._reader.close()\n",
+   "        except BaseException:\n            if not keep_open:\n                self._reader.close()\n            raise\n        if not keep_open:\n            self._reader.close()\n"))
+V("BL4-receiver-keeps-chunk", "C15", "BL4",
+  ("channel_data.py", "        if self._raw_timestamps:\n            # Need to be careful", "        if self._raw_timestamps and start_pos == 0 and len(new_data) == len(self.data):\n            self.data = new_data\n        elif self._raw_timestamps:\n            # Need to be careful"))
